@@ -183,7 +183,11 @@ def run_case(env, c):
         target = "f"
     else:
         expect = _norm(orig)
-        cmd = b"%p\nec @@END@@\n"
+        k = 0
+        while b"@@END%d@@" % k in orig:      # sentinel unique by construction
+            k += 1
+        sentinel = b"@@END%d@@" % k
+        cmd = b"%p\nec " + sentinel + b"\n"
         target = None
     prevlen = 0
     if target == "out":
@@ -203,9 +207,9 @@ def run_case(env, c):
         if not got.startswith(msg):
             return Outcome(False, nt, cl, detail={"why": "read message differs", "got": got[:200], "want": msg})
         got = got[len(msg):]
-        if b"@@END@@" not in got:
+        if sentinel not in got:
             return Outcome(False, nt, cl, detail={"why": "sentinel missing", "got": got[-200:]})
-        got = got[:got.index(b"@@END@@")]
+        got = got[:got.index(sentinel)]
     else:
         got = runner.read_file(d, target)
     if got != expect:
